@@ -488,7 +488,12 @@ def state_obligations(graph):
             for d in f.node.decorator_list:
                 txt = ast.unparse(d)
                 if any(c in txt for c in ("lru_cache", "functools.cache", "cache(", "memoize")) or txt in ("cache",):
-                    add("cache", f.node, None, "@%s keeps results across calls: harmless only if callers never mutate a cached result (not decidable here; see the two-call history stand-in)" % txt[:40])
+                    rets = [n.value for n in termination._own_nodes(f) if isinstance(n, ast.Return) and n.value is not None]
+                    imm = bool(rets) and all(_immutable_expr(r) for r in rets)
+                    add("cache", f.node, True if imm else False,
+                        ("@%s: every return value is immutable (str / number / tuple / frozenset), sharing it between calls is harmless" % txt[:40]) if imm
+                        else ("@%s keeps results across calls and the function returns an object that is not provably immutable (%s): every caller that receives it shares -- and may mutate -- one object, "
+                              "so a later call can see what an earlier one did" % (txt[:40], "; ".join(ast.unparse(r)[:50] for r in rets[:2]) or "no return")))
         # mutable defaults
         if not is_mod and not isinstance(f.node, ast.Lambda):
             a = f.node.args
@@ -514,6 +519,31 @@ def state_obligations(graph):
                 else:
                     add("mutable-default", f.node, True, "parameter `%s` has a mutable default; the body never mutates it%s" % (arg.arg, " (it is returned: callers are ASSUMED not to mutate the result)" if returned else ""))
     return obs
+
+
+def _immutable_expr(e):
+    """Syntactically a str / number / bool / None / tuple or frozenset of such"""
+    if isinstance(e, ast.Constant):
+        return not isinstance(e.value, (bytes,)) or True
+    if isinstance(e, ast.JoinedStr):
+        return True
+    if isinstance(e, ast.Tuple):
+        return all(_immutable_expr(x) for x in e.elts)
+    if isinstance(e, (ast.Compare, ast.BoolOp, ast.UnaryOp)) and not isinstance(e, ast.BoolOp):
+        return True
+    if isinstance(e, ast.BoolOp):
+        return all(_immutable_expr(v) for v in e.values)
+    if isinstance(e, ast.IfExp):
+        return _immutable_expr(e.body) and _immutable_expr(e.orelse)
+    if isinstance(e, ast.Call):
+        fn = e.func
+        nm = fn.id if isinstance(fn, ast.Name) else (fn.attr if isinstance(fn, ast.Attribute) else "")
+        if nm in ("str", "int", "float", "bool", "len", "frozenset", "tuple", "repr", "format", "join", "strip", "lstrip", "rstrip", "lower", "upper", "replace", "title",
+                  "startswith", "endswith", "find", "rfind", "count", "isinstance", "hasattr", "min", "max", "sum", "abs", "hash", "ord", "chr", "casefold", "capitalize", "partition", "rpartition"):
+            return True
+    if isinstance(e, ast.BinOp) and isinstance(e.op, (ast.Add, ast.Mod, ast.Mult, ast.Sub, ast.FloorDiv, ast.Div)):
+        return _immutable_expr(e.left) or _immutable_expr(e.right)
+    return False
 
 
 def _mutable_expr(e):
